@@ -189,6 +189,12 @@ PROPS = {
         note='Known findings F14 and F23 (assertions reachable through the public API) are tolerated only in the exact situation described in KNOWN_FINDINGS.txt. "Never allocates" is observed through an operator-new counter around library calls on the explored paths.',
         technique='fuzzing-style property testing under sanitizers with live assertions (rapidcheck; libFuzzer in the thorough tier)',
     ),
+    'C15': dict(
+        level='exploration', custom='c15', bins=[],
+        claim='One program (generic instrumented states over two structures, with and without utility regions) is built under a covering set of 10 feature sets x 2 activation modes (plans, serialization, transition history, structure report, utility theory, interface / verbose logging, type index off, debug state type; payload void/int, substitution limit 4/7, task capacity default/40) and, when development/ does not re-join to the single header byte for byte, under both header flavours; all builds of a group execute the same generated corpus restricted to the common feature subset and must produce identical digests of callbacks, pending counts and configurations; a mismatch is shrunk by dropping op records.',
+        note='When development/hfsm2 re-joins (tools/join.py re-implementation) to include/hfsm2/machine.hpp byte for byte, one flavour is built and the evidence says so. Feature sets that do not compile are reported as undecided, not as violations.',
+        technique='cross-binary differential testing over a covering array of feature sets and header flavours, seeded corpus, ddmin shrinking',
+    ),
     'C16': dict(
         level='exploration', bins=WALKER_NAMES,
         quick=walk_jobs(WALKER_NAMES, 5000, 40), thorough=walk_jobs(WALKER_NAMES, 20000, 60),
